@@ -59,6 +59,15 @@ theorem C18_all_run (g0 : Growth) (s : Ctl) (h : Reachable g0 s)
     | true => have := hi.failed_errs t ht hf; simp [herr] at this
   · exact ((hi.once t ht).2.1).2 (by rw [hterm]; decide)
 
+/-- An error is only ever recorded because a task failed or because the dependency graph of
+that state has a cycle.  Together with `C18_all_run`: in a run that ends without
+cancellation, if no task failed and the graph is acyclic, every task ran. -/
+theorem C18_errs_cause (g0 : Growth) (s : Ctl) (h : Reachable g0 s) (he : s.errs = true) :
+    (∃ t, t < s.n ∧ (s.tasks t).failed = true) ∨ Cyclic s.n s.deps := by
+  rcases errs_cause cycleSpec blockedSpec g0 s h he with hf | hc
+  · exact Or.inl hf
+  · exact Or.inr ((checkCycle_iff s.n s.deps (C18_invariant g0 s h).wf).1 hc)
+
 /-- **Progress / no deadlock.**  While the loop has not returned, no error is recorded,
 nothing is left Ready and some task is Running (so the `select` always has a completion to
 wait for); the defensive "deadlock" branch of `runLoop` is unreachable. -/
